@@ -759,15 +759,16 @@ func GenSharedNamesWeek(r *Rand, x float64) (*telemetry.UploadConfig, []FileSpec
 		return n
 	}
 	// per program and shared name: 0 approved with rate 1, 1 approved with a rate placed at/below X,
-	// 2 not configured, 3 configured as the other kind only
+	// 2 not configured, 3 configured as the other kind only, 4 configured as BOTH kinds with
+	// different rates (one at 1, the other at/below X, either way round)
 	status := func(pi, ni int) int {
 		if ni == 0 && pi == 0 {
 			return 0
 		}
 		if ni == 0 && pi == 1 {
-			return Pick(r, []int{2, 2, 1, 3})
+			return Pick(r, []int{2, 2, 1, 3, 4})
 		}
-		return r.Intn(4)
+		return r.Intn(5)
 	}
 	low := func() float64 {
 		if x > 0 {
@@ -785,6 +786,13 @@ func GenSharedNamesWeek(r *Rand, x float64) (*telemetry.UploadConfig, []FileSpec
 				p.Stacks = append(p.Stacks, telemetry.CounterConfig{Name: t, Rate: low(), Depth: 8})
 			case 3:
 				p.Counters = append(p.Counters, telemetry.CounterConfig{Name: t, Rate: 1})
+			case 4:
+				a, b := 1.0, low()
+				if r.Bool() {
+					a, b = b, a
+				}
+				p.Counters = append(p.Counters, telemetry.CounterConfig{Name: t, Rate: a})
+				p.Stacks = append(p.Stacks, telemetry.CounterConfig{Name: t, Rate: b, Depth: 8})
 			}
 		}
 		for ni, c := range counterNames {
@@ -795,6 +803,13 @@ func GenSharedNamesWeek(r *Rand, x float64) (*telemetry.UploadConfig, []FileSpec
 				p.Counters = append(p.Counters, telemetry.CounterConfig{Name: cfgName(c), Rate: low()})
 			case 3:
 				p.Stacks = append(p.Stacks, telemetry.CounterConfig{Name: c, Rate: 1, Depth: 4})
+			case 4:
+				a, b := 1.0, low()
+				if r.Bool() {
+					a, b = b, a
+				}
+				p.Counters = append(p.Counters, telemetry.CounterConfig{Name: cfgName(c), Rate: a})
+				p.Stacks = append(p.Stacks, telemetry.CounterConfig{Name: c, Rate: b, Depth: 4})
 			}
 		}
 		cfg.Programs = append(cfg.Programs, p)
@@ -828,6 +843,14 @@ func GenSharedNamesWeek(r *Rand, x float64) (*telemetry.UploadConfig, []FileSpec
 		}
 		for _, c := range counterNames {
 			add(c)
+			if r.Chance(50) {
+				add(c + "\n" + frames()) // the same name as a stack title
+			}
+		}
+		for _, t := range stackTitles {
+			if r.Chance(50) {
+				add(t) // the same name as a plain counter
+			}
 		}
 		for _, kv := range GenCounts(r, cfg, n, 2) {
 			add(kv.K)
